@@ -157,9 +157,9 @@ def run(ctx):
     grog = ctx.grog_binary()
     cli_stats = {"workspaces": 0, "commands": 0, "histories": 0, "executed_after_edit": 0}
     if grog:
-        for w in range(6 if quick else 60):
+        for w in range(12 if quick else 60):
             bad_corr += cli_workspace(ctx, grog, rng, w, nontrivial, cli_stats)
-        for hcase in range(3 if quick else 25):
+        for hcase in range(8 if quick else 40):
             cli_history(ctx, grog, rng, hcase, cli_stats)
     cov["cli"] = cli_stats
     cov["distinct_nontrivial"] = len(nontrivial)
